@@ -14,7 +14,8 @@ EXTENDS DirSize
 CONSTANTS D,          \* length of the edit sequences
           CaseNames,  \* subset of Names used in the class product
           F1Data, F2Links,   \* see CaseSet
-          HN, HC, HT, HModes, HMtimes   \* class subsets used by the edit sequences
+          HN, HC, HT, HModes, HMtimes,  \* class subsets used by the edit sequences
+          E                             \* unused (kept for the cfg files)
 VARIABLES gk, case, hist
 gvars == <<vars, gk, case, hist>>
 
@@ -62,17 +63,6 @@ GNext == /\ gk = "hist" /\ Len(hist) < D /\ UNCHANGED <<gk, case>>
                   \/ RemoveAbsent(n) /\ Step([op |-> "Remove", n |-> n, nl |-> NameLens[n], existed |-> FALSE])
             \/ Reload /\ Step([op |-> "Reload"])
 GSpec == GInit /\ [][GNext]_gvars
-
-\* -simulate: long sequences, one printed behaviour per E steps
-CONSTANT E
-Flush == /\ gk = "hist" /\ Len(hist) = E
-         /\ PrintT(<<"BEHAVIOUR", ToJson([k |-> "hist", mode |-> mode, mtime |-> mtime, mtimeSet |-> MtimeSet(mtime),
-                                           init |-> DataFieldSize(mode, mtime), steps |-> hist])>>)
-         /\ hist' = <<>> /\ entries' = Empty /\ mode' \in HModes /\ mtime' \in HMtimes
-         /\ est' = DataFieldSize(mode', mtime') /\ UNCHANGED <<gk, case>>
-GInitSim == gk = "hist" /\ case = NoCase /\ hist = <<>> /\ HInit
-GNextSim == IF Len(hist) = E THEN Flush ELSE GNext
-GSpecSim == GInitSim /\ [][GNextSim]_gvars
 
 Emit == /\ gk = "case" => PrintT(<<"BEHAVIOUR", ToJson(case)>>)
         /\ (gk = "hist" /\ Len(hist) = D) =>
